@@ -98,7 +98,7 @@ CHECKS.update({
    ref='6/C13'),
  'C18': dict(level='other', engine='K-bits + S-euf',
    technique='Kani/CBMC on sgn0 / ordering / negate_if for all canonical values; ring-domain conformance of Fq2::sqrt to Alg. 9 with pow and Frobenius uninterpreted; z3',
-   text='Fq::sgn0 = parity, Fq2::sgn0 = parity of the first non-zero coefficient, negate_if, xor table, Ord for Fq = integer order, Ord for Fq2 lexicographic with c1 most significant, exactly one of y,-y larger and parities differ. Fq2::sqrt: exponent literals (q-3)/4 and (q-1)/2, a0 = alpha^q alpha, None iff a0 = -1, alpha = -1 special case multiplies by u, else by (1+alpha)^((q-1)/2), zero to zero; legendre = legendre_Fq(norm), norm = c0^2+c1^2. The native Fq2::sqrt is compared with Euler's criterion on branch-class inputs incl. one constructed input per special value of alpha = a^((q-1)/2).',
+   text='Fq::sgn0 = parity, Fq2::sgn0 = parity of the first non-zero coefficient, negate_if, xor table, Ord for Fq = integer order, Ord for Fq2 lexicographic with c1 most significant, exactly one of y,-y larger and parities differ. Fq2::sqrt: exponent literals (q-3)/4 and (q-1)/2, a0 = alpha^q alpha, None iff a0 = -1, alpha = -1 special case multiplies by u, else by (1+alpha)^((q-1)/2), zero to zero; legendre = legendre_Fq(norm), norm = c0^2+c1^2. The native Fq2::sqrt is compared with the Euler criterion on branch-class inputs incl. one constructed input per special value of alpha = a^((q-1)/2).',
    note='Shape facts (which exponents / constants the code uses) make the check answer exit 2, never VIOLATION, when the algorithm is replaced. Partial: correctness (not conformance) of Alg. 9 and of the derive-generated Fq / Fr sqrt and legendre for all inputs is outside the claim (pow loops over 255/381-bit fields); their parameters are C08 ground facts.',
    ref='6/C18'),
  'C19': dict(level='model_checking', engine='K-bits',
